@@ -58,6 +58,10 @@ def counter_form(ctx, idx, d, fi, cfg, nexts, con):
     subs = [n for n in cfg.find("sub") if isinstance(n.ast.value, ast.Name) and n.ast.value.id == rowvar]
     guards = [t for t in cfg.find("test") if isinstance(K.expand(fi, t.ast), ast.Name) and K.expand(fi, t.ast).id == rowvar or (isinstance(t.ast, ast.UnaryOp) and isinstance(t.ast.operand, ast.Name) and t.ast.operand.id == rowvar)]
     ok = bool(subs) and bool(guards) and all(any(cfg.dominates(g, s_) for g in guards) for s_ in subs)
+    if not ok and subs:
+        ok = _empty_row_reaches(cfg, fi, h, rowvar, set(subs)) is None
+    if subs and _empty_row_reaches(cfg, fi, h, rowvar, set(subs), model="blanks") is None:
+        ctx.violate("C17.c", "%s.execute::separator-only-rows" % d.key, d.module.rel, subs[0].line, "a line made of separators only (`,,`: a row of empty cells) never reaches `%s[...]`: it is skipped like a blank line instead of being reported as an invalid (empty) cell with its line, and the rows after it move up" % rowvar)
     ctx.ob("C17.c", "%s.execute::blank-rows" % d.key, d.module.rel, subs[0].line if subs else h.line, ok, "blank rows are skipped before the row is indexed" if ok else "a blank line reaches `%s[...]` and fails with IndexError instead of being skipped" % rowvar)
     return subs
 
@@ -102,6 +106,52 @@ def reader_source(ctx, idx, d, rule="C17.f"):
                     bad = x
         ctx.ob(rule, "%s.execute::line-source" % d.key, d.module.rel, rd_.lineno, bad is None, "csv.reader is fed `%s`: the file's own lines with their terminators" % K.src(src_e)[:50] if bad is None else
                "csv.reader is fed `%s`: `%s` drops the line terminators (and splits on more characters than the writer treats as line ends), so a quoted cell spanning lines is glued together wrongly and a cell containing such a character breaks the row apart" % (K.src(src_e)[:50], K.src(bad)[-30:]))
+
+
+def _empty_row_reaches(cfg, fi, head, rowvar, subs, model="empty"):
+    """Can a subscript of `rowvar` be reached from the loop head when the row is the empty list (model "empty"), or a row of two
+    empty cells `["", ""]` (model "blanks": a line of separators only)?  Tests on the row are decided for that row (truthiness, len
+    comparisons, any/all, comparison with []); every other test is taken both ways."""
+    n_ = 0 if model == "empty" else 2
+
+    def decide(e):
+        e = K.expand(fi, e)
+        if isinstance(e, ast.UnaryOp) and isinstance(e.op, ast.Not):
+            r = decide(e.operand)
+            return None if r is None else not r
+        if isinstance(e, ast.Name) and e.id == rowvar:
+            return n_ > 0
+        if isinstance(e, ast.Call) and isinstance(e.func, ast.Name) and len(e.args) == 1 and isinstance(e.args[0], ast.Name) and e.args[0].id == rowvar:
+            return {"any": False, "all": n_ == 0, "bool": n_ > 0, "len": None}.get(e.func.id)
+        if isinstance(e, ast.Compare) and len(e.ops) == 1:
+            l, r, op = e.left, e.comparators[0], e.ops[0]
+            def islen(x):
+                return isinstance(x, ast.Call) and isinstance(x.func, ast.Name) and x.func.id == "len" and len(x.args) == 1 and isinstance(x.args[0], ast.Name) and x.args[0].id == rowvar
+            if islen(l) and isinstance(r, ast.Constant) and isinstance(r.value, int):
+                return {ast.Gt: n_ > r.value, ast.GtE: n_ >= r.value, ast.Lt: n_ < r.value, ast.LtE: n_ <= r.value, ast.Eq: n_ == r.value, ast.NotEq: n_ != r.value}.get(type(op))
+            if islen(r) and isinstance(l, ast.Constant) and isinstance(l.value, int):
+                return {ast.Gt: l.value > n_, ast.GtE: l.value >= n_, ast.Lt: l.value < n_, ast.LtE: l.value <= n_, ast.Eq: l.value == n_, ast.NotEq: l.value != n_}.get(type(op))
+            if isinstance(l, ast.Name) and l.id == rowvar and isinstance(r, (ast.List, ast.Tuple)) and not r.elts:
+                return (n_ == 0) if isinstance(op, ast.Eq) else (n_ != 0) if isinstance(op, ast.NotEq) else None
+        return None
+
+    seen, work = set(), [m for m, lab in head.succ if lab == "loop"]
+    while work:
+        n = work.pop()
+        if n in seen or n is head:
+            continue
+        seen.add(n)
+        if n in subs:
+            return n
+        verdict = decide(n.ast) if n.kind == "test" else None
+        for m, lab in n.succ:
+            if lab == "exc":
+                continue
+            if verdict is not None and lab in ("true", "false") and (lab == "true") != verdict:
+                continue
+            work.append(m)
+    return None
+
 
 
 def run(ctx, idx):
@@ -200,6 +250,10 @@ def run(ctx, idx):
         ok = bool(subs) and bool(guards) and all(any(cfg.dominates(g, s) and s not in cfg.reachable([m for m, l in g.succ if l == "false"], avoid={g, h}) for g in guards) for s in subs)
         if filtered_src is not None and bool(subs):
             ok = True  # blank rows are removed by the filtering iterable itself
+        if not ok and subs:
+            ok = _empty_row_reaches(cfg, fi, h, rowvar, set(subs)) is None
+        if subs and _empty_row_reaches(cfg, fi, h, rowvar, set(subs), model="blanks") is None:
+            ctx.violate("C17.c", "%s.execute::separator-only-rows" % d.key, d.module.rel, subs[0].line, "a line made of separators only (`,,`: a row of empty cells) never reaches `%s[...]`: it is skipped like a blank line instead of being reported as an invalid (empty) cell with its line, and the rows after it move up" % rowvar)
         ctx.ob("C17.c", "%s.execute::blank-rows" % d.key, d.module.rel, subs[0].line if subs else h.line, ok, "blank rows are skipped before the row is indexed" if ok else "a blank line reaches `%s[...]` and fails with IndexError instead of being skipped" % rowvar)
     # every numeric spelling is read: the cell text goes through float() (int('2.0') / int('1e3') are ValueErrors)
     parents = {}
